@@ -203,6 +203,13 @@ class RtlCorpus0( Component ):
         s.r1 <<= s.b
 """)]
 
+# real stdlib components (child components, `//= lambda` blocks, register files and muxes indexed by a signal)
+CORPUS += [(n, 'from pymtl3 import *\nfrom pymtl3.stdlib.queues.queues import NormalQueueRTL, PipeQueueRTL, BypassQueueRTL\n'
+               'from pymtl3.stdlib.basic_rtl.arbiters import RoundRobinArbiterEn\n'
+               f'def {n}():\n  return {e}\n')
+           for n, e in (('RtlCorpusBQ3', 'BypassQueueRTL( mk_bits(2), 3 )'), ('RtlCorpusNQ2', 'NormalQueueRTL( mk_bits(2), 2 )'),
+                        ('RtlCorpusPQ1', 'PipeQueueRTL( mk_bits(2), 1 )'), ('RtlCorpusRR4', 'RoundRobinArbiterEn( 4 )'))]
+
 def run_corpus(ctx, trials=8):
   """queue the hand-written corpus designs (call before finish)"""
   n = 0
